@@ -64,6 +64,11 @@ def _is_simple(vertices):
     Bentley-Ottmann algorithm to check for intersections between the line
     segments.
     """
+    # Both routines below work with absolute epsilons and with products of coordinates,
+    # so the test is done on coordinates relative to the polygon itself: a simple
+    # polygon far away from the origin must not be reported as self-intersecting.
+    vertices = np.asarray(vertices)[:, :2]
+    vertices = vertices - np.mean(vertices, axis=0)
     try:
         if len(poly_point_isect.isect_polygon(vertices)) == 0:
             return True
